@@ -358,20 +358,16 @@ theorem Cell.roundtrip (kf : Int → Key) (hk : ∀ i, keyInt (kf i) = .ok i) (c
   unfold fromJsonCell Cell.toJson
   rw [hF]
   simp only [get?_dict, e6]
-  rw [optChildren_some fromJsonLine (Line.toJson kf) lines (fun l hl => Line.roundtrip kf hk l (hls l hl).1.1)]
+  rw [optChildren_some fromJsonLine (Line.toJson kf) lines (fun l hl => Line.roundtrip kf hk l (hls l hl).1)]
   simp only [ok_bind]
   rw [req_dict _ _ _ e1, req_dict _ _ _ e2, req_dict _ _ _ e3, jsonCoords_dict _ _ _ hco e5,
       req_dict _ _ _ e11, req_dict _ _ _ e12, req_dict _ _ _ e13]
   simp only [ok_bind, getD_dict, e7, e8, e9, e10, htys, hadd, asMeta, asOptInt_col]
-  have htext : lines.any (fun l => l.text.isNone) = false := by
-    rw [List.any_eq_false]; intro l hl
-    have := (hls l hl).2
-    cases ht : l.text <;> simp_all
-  simp only [htext, Bool.false_eq_true, if_false, pure_eq_ok, Cell.setParentage, List.map_map]
+  simp only [pure_eq_ok, Cell.setParentage, List.map_map]
   congr 2
   apply map_id_of
   intro l hl
-  obtain ⟨⟨hlo, hlp⟩, _⟩ := hls l hl
+  obtain ⟨hlo, hlp⟩ := hls l hl
   simp only [Function.comp, Line.setParent_of_has _ _ l hlp, Line.setParentage_of_ok l hlo]
 
 theorem colCells_eq (n : Nat) (cs : List Cell) (h : ∀ c ∈ cs, c.col.isSome = true) :
